@@ -127,4 +127,11 @@ def replay(pid, ob, repo, seed, contract):
                 return r
         except Exception as e:  # replay must never mask the violation
             return dict(failing_input=None, note=f'replay harness error: {e}')
+    if ob.get('engine') == 'kani':
+        from . import kani as K
+        cx = K.counterexample(ob, repo)
+        if cx:
+            return dict(failing_input=dict(harness=ob['harness'], concrete_values=cx['values'][:200], n_values=len(cx['values'])),
+                        note=cx['how'] + '; failed checks: ' + '; '.join(c['description'] for c in ob.get('failed_checks', [])[:6]))
+        return dict(failing_input=None, note='Kani produced no concrete playback for this failure')
     return dict(failing_input=None, note='no replay harness registered for this obligation; the verifier gives no model')
